@@ -31,6 +31,45 @@ impl Tier {
 
 pub const NONTRIVIAL_CAP: usize = 1_500_000;
 
+// ---- wall cap ---------------------------------------------------------------------------
+// Every run has a wall-clock budget for exploration (quick: 45 s, thorough: 30 min; override
+// with VERIF_WALL_CAP_S). Work is handed out simplest-first; once the budget is spent no further
+// work items are started, the number skipped is reported and `exhaustive` is cleared. A capped
+// run is a run that explored less, never a verdict by itself.
+static DEADLINE_MS: std::sync::atomic::AtomicU64 = std::sync::atomic::AtomicU64::new(u64::MAX);
+static SKIPPED: std::sync::atomic::AtomicU64 = std::sync::atomic::AtomicU64::new(0);
+static T0: std::sync::OnceLock<Instant> = std::sync::OnceLock::new();
+
+fn now_ms() -> u64 {
+    T0.get_or_init(Instant::now).elapsed().as_millis() as u64
+}
+
+pub fn set_wall_cap(secs: u64) {
+    DEADLINE_MS.store(now_ms() + secs * 1000, std::sync::atomic::Ordering::Relaxed);
+}
+
+/// Milliseconds left until the current deadline (0 if passed).
+pub fn remaining_ms() -> u64 {
+    DEADLINE_MS.load(std::sync::atomic::Ordering::Relaxed).saturating_sub(now_ms())
+}
+
+/// Replaces the deadline by "now + ms" (used to give each family of a run its share).
+pub fn set_deadline_in_ms(ms: u64) {
+    DEADLINE_MS.store(now_ms().saturating_add(ms), std::sync::atomic::Ordering::Relaxed);
+}
+
+pub fn wall_cap_hit() -> bool {
+    now_ms() > DEADLINE_MS.load(std::sync::atomic::Ordering::Relaxed)
+}
+
+pub fn note_skipped(n: u64) {
+    SKIPPED.fetch_add(n, std::sync::atomic::Ordering::Relaxed);
+}
+
+pub fn skipped_by_wall_cap() -> u64 {
+    SKIPPED.load(std::sync::atomic::Ordering::Relaxed)
+}
+
 pub fn bytes_json(v: &[u8]) -> Value {
     if v.iter().all(|b| (0x20..0x7f).contains(b)) {
         json!(String::from_utf8_lossy(v))
@@ -183,6 +222,10 @@ where
                         if lo >= n {
                             break;
                         }
+                        if wall_cap_hit() {
+                            note_skipped((lo + chunk).min(n) - lo);
+                            continue;
+                        }
                         for i in lo..(lo + chunk).min(n) {
                             work(i, &mut st);
                         }
@@ -262,6 +305,8 @@ fn load_known() -> Vec<Known> {
 
 impl Run {
     pub fn new(prop: &str, engine: &'static str, tier: Tier) -> Run {
+        let cap = std::env::var("VERIF_WALL_CAP_S").ok().and_then(|s| s.parse().ok()).unwrap_or(tier.pick(45u64, 1800));
+        set_wall_cap(cap);
         let seed = std::env::var("VERIF_SEED")
             .ok()
             .and_then(|s| s.parse().ok())
@@ -328,7 +373,10 @@ impl Run {
             "traces_validated_against_impl".into(),
             json!(st.evaluations),
         );
-        cov.insert("exhaustive".into(), json!(self.exhaustive));
+        let skipped = skipped_by_wall_cap();
+        let exhaustive = self.exhaustive && skipped == 0;
+        cov.insert("exhaustive".into(), json!(exhaustive));
+        cov.insert("work_items_skipped_by_wall_cap".into(), json!(skipped));
         cov.insert("bounds".into(), self.bounds.clone());
         cov.insert("distinct_outcomes".into(), json!(st.outcomes.len()));
         cov.insert("outcomes".into(), json!(st.outcomes));
@@ -387,8 +435,11 @@ impl Run {
             st.violation_count,
             known_hits,
             wall,
-            self.exhaustive,
+            exhaustive,
         );
+        if skipped > 0 {
+            println!("{}: wall cap reached: {} work items (the most complex ones) were not started; everything before them was explored completely", self.prop, skipped);
+        }
         // Vacuity guards: a run that explored nothing is a machinery failure, not a pass.
         if st.evaluations == 0 || st.states.is_empty() || st.transitions.is_empty() || st.nontrivial.len() < 2 {
             eprintln!("MACHINERY ERROR: vacuous run (evaluations/states/transitions/nontrivial too small)");
